@@ -13,6 +13,7 @@ from vlib.ref import classify as C
 from vlib.util import call
 
 PROPERTY_ID = "C06"
+OPTIMIZED = ['records']   # clauses run a second time under `python -O` (assert statements stripped)
 RULE = ("wallet source (mnemonic from generated entropy + passphrase, raw seed, master xprv) x network x account "
         "{0,1,2^31-1,uniform} x interval [s,e) with s in {0,1,2^31-2,uniform}, 0..4 rows or e < s; a second generate() "
         "with another interval/account on the same wallet object; every field decoded independently and compared with "
